@@ -122,6 +122,47 @@ func c18dump(list []*network.ServerIdentity) (string, []byte) {
 	return "ok " + strings.Join(parts, ";") + " pre=" + h.Hex(pre), pre
 }
 
+// c18accessors: the per-service keys of an identity are consumed through ServicePublic / ServicePrivate /
+// HasServicePublic / HasServiceKeyPair (network/struct.go): for every service entry the accessors must give that
+// entry's keys, for a name without entry the server's own keys. Independent of the model.
+func c18accessors(list []*network.ServerIdentity) string {
+	for n, si := range list {
+		for i := range si.ServiceIdentities {
+			sid := &si.ServiceIdentities[i]
+			if p := si.ServicePublic(sid.Name); p == nil || !p.Equal(sid.Public) {
+				return fmt.Sprintf("server %d: ServicePublic(%q) is not the public key of that service entry", n, sid.Name)
+			}
+			if !si.HasServicePublic(sid.Name) {
+				return fmt.Sprintf("server %d: HasServicePublic(%q) = false for a service entry with a public key", n, sid.Name)
+			}
+			priv := sid.GetPrivate()
+			if got := si.ServicePrivate(sid.Name); (got == nil) != (priv == nil) || (got != nil && !got.Equal(priv)) {
+				return fmt.Sprintf("server %d: ServicePrivate(%q) is not the private key of that service entry", n, sid.Name)
+			}
+			if si.HasServiceKeyPair(sid.Name) != (priv != nil) {
+				return fmt.Sprintf("server %d: HasServiceKeyPair(%q) = %v, the entry has a private key: %v", n, sid.Name, si.HasServiceKeyPair(sid.Name), priv != nil)
+			}
+		}
+		const nobody = "c18 no such service"
+		if p := si.ServicePublic(nobody); p == nil || !p.Equal(si.Public) || si.HasServicePublic(nobody) || si.HasServiceKeyPair(nobody) {
+			return fmt.Sprintf("server %d: a name without service entry does not get the server's own public key", n)
+		}
+		if got, own := si.ServicePrivate(nobody), si.GetPrivate(); (got == nil) != (own == nil) || (got != nil && !got.Equal(own)) {
+			return fmt.Sprintf("server %d: a name without service entry does not get the server's own private key", n)
+		}
+	}
+	return ""
+}
+
+func c18noteSig(note string) string {
+	if strings.HasPrefix(note, "service-key-accessor") {
+		return "service-key-accessor"
+	}
+	return "roster-id-not-from-keys"
+}
+
+var c18accessorNote atomic.Value // string: the last complaint of c18accessors on a private configuration
+
 func c18idOfPre(pre []byte) string {
 	d := sha256.Sum256(pre)
 	return uuid.NewSHA1(uuid.NameSpaceURL, []byte(hex.EncodeToString(d[:]))).String()
@@ -170,6 +211,9 @@ func c18readGroup(file string) (dump string, g *app.Group, note string) {
 			note = "Group.Description differs from ServerIdentity.Description"
 		}
 	}
+	if a := c18accessors(g.Roster.List); a != "" && note == "" {
+		note = "service-key-accessor: " + a
+	}
 	return d, g, note
 }
 
@@ -188,6 +232,9 @@ func c18readPrivate(file string) (dump string, hc *app.CothorityConfig) {
 		return "err", hc
 	}
 	d, _ := c18dump([]*network.ServerIdentity{si})
+	if a := c18accessors([]*network.ServerIdentity{si}); a != "" {
+		c18accessorNote.Store(a)
+	}
 	return d, hc
 }
 
@@ -532,7 +579,7 @@ func c18exec(c *h.Ctx, cs *h.Case) {
 			first, _, note := c18readGroup(file)
 			registryOracle("g", first)
 			if note != "" {
-				cs.Fail("roster-id-not-from-keys", note)
+				cs.Fail(c18noteSig(note), note)
 			}
 			if want, ok := c18filePubs(text); ok && strings.HasPrefix(first, "ok ") {
 				if got := c18dumpPubs(first); strings.Join(got, ",") != strings.Join(want, ",") {
@@ -650,7 +697,7 @@ func c18exec(c *h.Ctx, cs *h.Case) {
 				}
 				obs = second
 				if note != "" {
-					cs.Fail("roster-id-not-from-keys", note)
+					cs.Fail(c18noteSig(note), note)
 				}
 				for i := 1; i < n; i++ {
 					if d, _, _ := c18readGroup(file2); d != second {
@@ -683,7 +730,11 @@ func c18exec(c *h.Ctx, cs *h.Case) {
 			}
 			file := newFile(".private.toml")
 			c18ensure(file, text)
+			c18accessorNote.Store("")
 			first, hc := c18readPrivate(file)
+			if a, _ := c18accessorNote.Load().(string); a != "" {
+				cs.Fail("service-key-accessor", a)
+			}
 			registryOracle("p", first)
 			for i := 1; i < n; i++ {
 				c18ensure(file, text)
@@ -805,7 +856,7 @@ func c18exec(c *h.Ctx, cs *h.Case) {
 				}
 				d, _, note := c18readGroup(file)
 				if note != "" {
-					cs.Fail("roster-id-not-from-keys", note)
+					cs.Fail(c18noteSig(note), note)
 				}
 				return d
 			}
@@ -874,7 +925,7 @@ func c18exec(c *h.Ctx, cs *h.Case) {
 				os.Remove(file2)
 				obs = "text=" + c18hex(written) + " " + second
 				if note != "" {
-					cs.Fail("roster-id-not-from-keys", note)
+					cs.Fail(c18noteSig(note), note)
 				}
 				// oracle: same identities (an empty description becomes the placeholder), same roster id -
 				// for service names the writer can quote (no backslash: `Key.maybeQuoted` escapes only `"`)
@@ -986,7 +1037,7 @@ func c18exec(c *h.Ctx, cs *h.Case) {
 				os.Remove(file2)
 				obs = "text=" + c18hex(written) + " single=" + c18hex(single) + " " + second
 				if note != "" {
-					cs.Fail("roster-id-not-from-keys", note)
+					cs.Fail(c18noteSig(note), note)
 				}
 				// oracle: the published identity is the public half of the private one
 				if g2 == nil || g2.Roster == nil || len(g2.Roster.List) != 1 {
